@@ -16,3 +16,6 @@ import (
 func All() []*rx.Family {
 	return []*rx.Family{s1.Family(), s2.Family(), s3.Family(), s4.Family(), s5.Family(), s6.Family(), s7.Family(), s8.Family()}
 }
+
+// AllC06 adds the two-realm ownership family to the C03 families.
+func AllC06() []*rx.Family { return All() }
